@@ -240,3 +240,48 @@ def localadd(case, res):
         S.check_idle_baseline(st)
         return S.ops[:20]
     sim_case(case, res, body)
+
+
+@scenario("credfile-size")
+def credfile_size(case, res):
+    """a valid credential file must be loadable whatever its size is (the loader maps the file: page multiples have no terminator)"""
+    import tempfile
+    rng = random.Random(case["seed"])
+    creds, pool = make_creds(rng, rng.choice([2, 8, 32]))
+    txt = creds.file_json(crypt_fn(rng))
+    size = case["params"]["size"]
+    if size is not None:
+        if len(txt) > size:
+            size = ((len(txt) // 4096) + 1) * 4096 + (size % 4096)
+        txt = txt + " " * (size - len(txt))
+    d = tempfile.mkdtemp(prefix="cjv-cred-")
+    path = os.path.join(d, "passwd.json")
+    with open(path, "w") as fh:
+        fh.write(txt)
+    binary = build.build(config="default", lane=case.get("lane", "asan"))
+    res.sample = {"file_size": len(txt)}
+    res.stats["credential_files_loaded"] += 1
+    res.sigs.add(("credfile-size", len(txt) % 4096 == 0, len(txt) // 4096))
+    S = None
+    try:
+        try:
+            S = Session(binary, config=build.cfg_of("default"), args=("-f", "-p", path), creds=creds, seed=case["seed"])
+        except (DaemonExited, DaemonDied) as e:
+            res.viol.append(("authfile/valid-file-not-loadable:size%%4096=%d" % (len(txt) % 4096), "file of %d bytes: %s" % (len(txt), e)))
+            return
+        c = S.connect("c", "raw")
+        u = sorted(creds.users)[0]
+        S.request(c, "authenticate", {"user": u, "password": creds.users[u]["password"]})
+        S.settle()
+        S.close_all()
+        S.shutdown()
+        rc, err = S.finish()
+        k = crash_key(rc, err)
+        res.viol = S.viol + ([("crash/" + k, err[:2000])] if k else [])
+        res.stats.update(S.stats)
+        S = None
+    finally:
+        if S is not None:
+            S.sim.finish(kill=True)
+        os.unlink(path)
+        os.rmdir(d)
